@@ -177,8 +177,11 @@ def gen_plan(seed, k):
         det = True
         prefix = []
         for _ in range(rp.randint(1, 6)):
-            o = rp.choice(["run", "recv", "sleep"])
-            if o == "run":
+            # (a cancel() of the run that is then discarded by reset() must not reach the next run)
+            o = rp.choice(["run", "recv", "sleep", "run", "recv", "sleep", "cancel"])
+            if o == "cancel":
+                prefix.append({"op": "cancel", "i": 0})
+            elif o == "run":
                 prefix.append({"op": "run", "i": 0, "block": 0, "until": ["IDLE"], "max": 60})
             elif o == "recv":
                 prefix.append({"op": "recv", "i": 0, "name": rp.choice(EVENTS)})
